@@ -199,6 +199,9 @@ def estimate_mixture_weight(
             eps=1e-10,
             eps_style='where',
         )
+        # When the class axis is one of the constant axes, the (broadcasted)
+        # weight is shared by all K classes and has to be 1/K, not 1.
+        weight = weight * (weight.shape[-2] / affiliation.shape[-2])
 
     return weight
 
